@@ -28,6 +28,9 @@ MODELS = {
     "hash": ("---- MODULE MC_hash ----\nEXTENDS Hash\n====\n",
              "SPECIFICATION Spec\nCONSTANTS Keys = {{1, 2, 3, 5, 8{q}}}\n Leftovers = {{\"bogus\", \"mode2\", \"x\"}}\n SkipSort = FALSE\nINVARIANT Deterministic\nCHECK_DEADLOCK FALSE\n",
              {"quick": "", "thorough": ", 13, 21"}),
+    "runner": ("---- MODULE MC_runner ----\nEXTENDS Runner\n====\n",
+               "SPECIFICATION Spec\nCONSTANTS N = {q}\nINVARIANTS InOrderOnce NoDanglingAtEnd FatalIsAbort Complete\nPROPERTY Terminates\nCHECK_DEADLOCK FALSE\n",
+               {"quick": 5, "thorough": 6}),
     "resolve": (None, "SPECIFICATION Spec\nCONSTANTS ModeSlice = \"{q}\"\nINVARIANTS Inv_C10 Inv_C13\nCHECK_DEADLOCK FALSE\n",
                 {"quick": "default", "thorough": "all"}),
 }
@@ -65,7 +68,7 @@ NEGATIVE = {
 }
 FOR_PROP = {"C01": ["gencode_i4", "gencode_u4", "gencode_i8"], "C03": ["gencode_i4", "gencode_u4", "gencode_i8"],
             "C04": ["gencode_i4", "gencode_u4"], "C05": ["gencode_i4", "gencode_u4", "gencode_i8"],
-            "C02": ["gencode_i4", "iterimpl_i3", "iterimpl_u3"], "C06": ["iterimpl_i3", "iterimpl_u3"], "C07": ["iterimpl_i3", "iterimpl_u3", "gencode_i4"],
+            "C02": ["gencode_i4", "iterimpl_i3", "iterimpl_u3", "runner"], "C06": ["iterimpl_i3", "iterimpl_u3"], "C07": ["iterimpl_i3", "iterimpl_u3", "gencode_i4"],
             "C08": ["iterimpl_u3"], "C09": ["resolve"], "C10": ["resolve", "parseattr_c10"], "C13": ["resolve", "parseattr_c13"],
             "C11": ["parsevalues", "enumtools_c11"], "C12": ["parsevalues", "enumtools_c12"], "C14": ["parsevalues", "enumtools_c14"]}
 FOR_PROP["C17"] = ["hash"]
